@@ -145,7 +145,7 @@ def make_env(fs):
 class PersistHarness(_Base):
     """kind: 'system-z' (symbolic base, lazy prefix), 'custom' (symbolic ranks), 'c-rep'."""
 
-    def __init__(self, kind, N=2, M=2, prefix=(0,), may_fail=False, label=None):
+    def __init__(self, kind, N=2, M=2, prefix=(0,), may_fail=False, label=None, only_impacts=False):
         ops.setup()
         self.kind, self.N, self.M, self.prefix, self.may_fail = kind, N, M, list(prefix), may_fail
         self.sb = ops.SymBase(N, M, 1)
@@ -153,7 +153,8 @@ class PersistHarness(_Base):
         self.vars = self.sb.vars + (self.R if kind == "custom" else [])
         A, B, QA, QB = self.sb.tables()
         self.spec = specs.BaseSpec(A, B)
-        self.label = label or "persistence[%s] N=%d M=%d ranked-before-save=%s%s" % (kind, N, M, self.prefix, " save may fail" if may_fail else "")
+        self.only_impacts = only_impacts
+        self.label = label or "persistence[%s%s] N=%d M=%d ranked-before-save=%s%s" % (kind, " impacts round trips only" if only_impacts else "", N, M, self.prefix, " save may fail" if may_fail else "")
         self.reset()
 
     def mk_engine(self):
@@ -201,6 +202,17 @@ class PersistHarness(_Base):
                 return ("refused", str(e)[:80])
             if getattr(ocf, "_z_partition", True) is False:
                 return ("refused", "inconsistent")
+            if self.only_impacts:
+                ocf.export_impacts("store/imp.json")
+                ocf.export_impacts("store/imp.pkl", fmt="pickle")
+                bbx = ops.R["BeliefBase"](list(CTX.atom_names), conds, "sym")
+                o2 = po.RandomMinCRepPreOCF.init_with_impacts(bbx, "store/imp.json")
+                o4 = po.RandomMinCRepPreOCF.init_with_impacts(bbx, "store/imp.pkl")
+                o3 = po.RandomMinCRepPreOCF.init_with_impacts_list(bbx, ocf.save_impacts())
+                same = list(o2._impacts) == list(ocf._impacts) == list(o3._impacts) == list(o4._impacts)
+                return ("ok", dict(save_err=None, intact=True, failed=[], has_attrs=True, sig_equal=True, ranks_loaded={}, ranks_orig={},
+                                   acc=(True, True), impacts=(list(o3._impacts) if same else None, list(ocf._impacts)),
+                                   meta=(True, True, "json", "pickle")))
             for w in self.prefix:
                 ocf.rank_world(world_str(w, self.N))
             before = {k: (v if not hasattr(v, "e") else "sym") for k, v in ocf.ranks.items()}
